@@ -71,6 +71,9 @@ class Analysis:
             f = ev['f']
             if f['type'] in REQ_TYPES:
                 iid = self._tag_iid(f)
+                if iid is None and not f.get('data') and not f.get('metadata'):
+                    # a request with an empty payload carries no tag: the plan has at most one such interaction
+                    iid = next((i for i, ia in self.ia.items() if ia.get('empty_req')), None)
                 if iid is not None:
                     self.sid_of.setdefault(iid, (ev['ep'], f['sid']))
                     self.sid_hist[(ev['ep'], f['sid'])].append((ev['seq'], iid))
